@@ -54,7 +54,7 @@ def tdigest(t):
         except Exception:
             raw = repr(a.tolist()).encode()
     return (hashlib.blake2b(raw, digest_size=12).hexdigest(), tuple(t.shape), str(t.dtype),
-            tuple(t.stride()), t._version, t.data_ptr(), bool(t.requires_grad))
+            tuple(t.stride()), (-1 if t.is_inference() else t._version), t.data_ptr(), bool(t.requires_grad))   # inference tensors carry no version counter
 
 
 def snapshot_args(obj, path='arg'):
